@@ -1,8 +1,105 @@
 import AFV.Driver.Proto
+import AFV.Model.Breakdown
+import AFV.Spec.Breakdown
 namespace AFV.Driver.C28
-open Lean AFV.Proto
+open Lean AFV.Proto AFV.Breakdown
 
-/-- Handler for property C28 requests (stub: not implemented yet). -/
-def handle (_req : Json) : Json := err "unimplemented"
+private def optStr : Option String → Json
+  | none => Json.null
+  | some s => Json.str s
+
+private def key4Json (k : Key4) : List Json := [Json.str k.1, Json.str k.2.1, optStr k.2.2.1, Json.str k.2.2.2]
+
+private def tbl4Json (t : List (Key4 × Int)) : Json :=
+  Json.arr (t.map (fun kv => Json.arr (key4Json kv.1 ++ [ofInt kv.2]).toArray)).toArray
+
+private def aggJson (t : List (List (Option String) × Int)) : Json :=
+  Json.arr (t.map (fun kv => Json.arr #[Json.arr (kv.1.map optStr).toArray, ofInt kv.2])).toArray
+
+private def tbl2Json (t : List (Key2 × Int)) : Json :=
+  Json.arr (t.map (fun kv => Json.arr #[Json.str kv.1.1, Json.str kv.1.2, ofInt kv.2])).toArray
+
+private def tbl1Json (t : List (String × Int)) : Json :=
+  Json.arr (t.map (fun kv => Json.arr #[Json.str kv.1, ofInt kv.2])).toArray
+
+private def optInt : Option Int → Json
+  | none => Json.null
+  | some i => ofInt i
+
+private def masks16 : List (Bool × Bool × Bool × Bool) :=
+  [false, true].flatMap fun a => [false, true].flatMap fun b => [false, true].flatMap fun c =>
+    [false, true].map fun d => (a, b, c, d)
+
+/-- all 16 flag combinations in the order (per_einsum, per_component, per_tensor, per_action) = bits 8,4,2,1 -/
+private def allAgg (t : List (Key4 × Int)) : Json :=
+  Json.arr (masks16.map (fun m => aggJson (aggregate m t))).toArray
+
+private def specAgg (t : List (Key4 × Int)) : Json :=
+  Json.arr (masks16.map (fun m =>
+    aggJson (if m = (false, false, false, false) then [([], total t)] else Spec.breakdown (proj m) t))).toArray
+
+private def res4 (r : Except Err (List (Key4 × Int))) : Json :=
+  match r with
+  | .error e => Json.mkObj [("err", Json.str e.toString)]
+  | .ok t => Json.mkObj [("table", tbl4Json t), ("total", ofInt (total t)), ("agg", allAgg t)]
+
+private def einsum? (j : Json) : Option (String × List String) := do
+  let a ← getArr? j
+  if a.size != 2 then none else
+  let e ← getStr? a[0]!
+  let ts ← strList? a[1]!
+  pure (e, ts)
+
+/-- ops:
+  {"op":"split","names":[s,…]}                      → [[part,…],…]      (`str.split("<SEP>")`)
+  {"op":"row","cols":[s,…],"vals":[int,…],"einsums":[[name,[tensor,…]],…]}
+        → model tables and every aggregation, spec tables, well-formedness flags -/
+def handle (req : Json) : Json :=
+  match (field? req "op").bind getStr? with
+  | some "split" =>
+    match (field? req "names").bind strList? with
+    | some ns => Json.arr (ns.map (fun n => ofStrList (splitSep n))).toArray
+    | none => err "malformed"
+  | some "row" =>
+    match (field? req "cols").bind strList?, (field? req "vals").bind intList?,
+          (field? req "einsums").bind getArr? with
+    | some cols, some vals, some esj =>
+      match esj.toList.mapM einsum? with
+      | none => err "malformed"
+      | some es =>
+        if cols.length != vals.length then err "malformed" else
+        let row : Row := (cols.map splitSep).zip vals
+        let en := Spec.names es
+        let lat := latencyTable row en
+        let latJ := match lat with
+          | .error e => Json.mkObj [("err", Json.str e.toString)]
+          | .ok t => Json.mkObj [("table", tbl2Json t), ("per_einsum", tbl1Json (perEinsumMax t)),
+                                 ("per_component", tbl1Json (perComponentSum t)), ("total", optInt (latencyTotal t))]
+        let us := match usageTable row with
+          | .error e => Json.mkObj [("err", Json.str e.toString)]
+          | .ok t => Json.mkObj [("table", tbl1Json t)]
+        let sE := Spec.energyCols row en
+        let sA := Spec.actionCols row en
+        let sL := Spec.latencyCols row en
+        let sU := Spec.reservationCols row
+        Json.mkObj [
+          ("energy", res4 (energyTable row es)),
+          ("actions", res4 (actionsTable row es)),
+          ("latency", latJ),
+          ("usage", us),
+          ("spec", Json.mkObj [
+            ("energy", tbl4Json sE), ("energy_total", ofInt (total sE)), ("energy_agg", specAgg sE),
+            ("actions", tbl4Json sA), ("actions_total", ofInt (total sA)), ("actions_agg", specAgg sA),
+            ("latency", tbl2Json sL), ("latency_total", optInt (Spec.latencyTotal sL)),
+            ("latency_per_einsum", tbl1Json (Spec.breakdownMax sL)),
+            ("latency_per_component", tbl1Json (Spec.breakdown (fun (k : Key2) => k.2) sL)),
+            ("usage", tbl1Json (Spec.usage sU)),
+            ("total_energy_col", optInt (Spec.totalCol row "energy")),
+            ("total_latency_col", optInt (Spec.totalCol row "latency"))]),
+          ("wf", Json.mkObj [
+            ("energy", Json.bool (Spec.wfEnergy row es)), ("actions", Json.bool (Spec.wfActions row es)),
+            ("latency", Json.bool (Spec.wfLatency row en)), ("usage", Json.bool (Spec.wfUsage row))])]
+    | _, _, _ => err "malformed"
+  | _ => err "bad-op"
 
 end AFV.Driver.C28
